@@ -151,6 +151,17 @@ func c02RunCmd(dir string, timeout time.Duration, name string, args ...string) (
 	return c02RunCmdEnv(dir, timeout, nil, name, args...)
 }
 
+// c02RunSplit runs a command and returns stdout and stderr separately.
+func c02RunSplit(timeout time.Duration, name string, args ...string) (string, string, error) {
+	ctx, cancel := context.WithTimeout(context.Background(), timeout)
+	defer cancel()
+	cmd := exec.CommandContext(ctx, name, args...)
+	var so, se bytes.Buffer
+	cmd.Stdout, cmd.Stderr = &so, &se
+	err := cmd.Run()
+	return so.String(), se.String(), err
+}
+
 func c02RunCmdEnv(dir string, timeout time.Duration, env []string, name string, args ...string) (string, error) {
 	ctx, cancel := context.WithTimeout(context.Background(), timeout)
 	defer cancel()
@@ -220,6 +231,10 @@ func c02CompileJava(work string, groups map[string][]*c02LangCase) (map[string][
 				dir := filepath.Dir(rel)
 				if _, ok := owner[dir]; !ok {
 					owner[dir] = c.ID
+					// the shared runtime package belongs to no case: it is never taken out of the build
+					if strings.HasSuffix(dir, "/cog") || strings.Contains(dir, "/cog/") {
+						owner[dir] = "*runtime:" + k
+					}
 				}
 				filesOf[owner[dir]] = append(filesOf[owner[dir]], p)
 			}
@@ -292,15 +307,26 @@ func c02CompileJava(work string, groups map[string][]*c02LangCase) (map[string][
 }
 
 const c02PyDriver = `
-import importlib, json, sys, compileall, io, contextlib
+import importlib, json, os, py_compile, sys
 root, spec = sys.argv[1], json.load(open(sys.argv[2]))
 sys.path.insert(0, root)
 res = {}
-buf = io.StringIO()
-with contextlib.redirect_stdout(buf):
-    ok = compileall.compile_dir(root + "/labpy", quiet=1, force=True)
-if not ok:
-    res["*compileall"] = buf.getvalue()[-2000:]
+owner = {}
+for case, mods in spec.items():
+    for m in mods:
+        owner[m.replace(".", "/") + ".py"] = case
+# byte-compile EVERY emitted module (python -m py_compile), attributed to the case that owns the file
+for dirpath, _, files in os.walk(os.path.join(root, "labpy")):
+    for f in sorted(files):
+        if not f.endswith(".py"):
+            continue
+        path = os.path.join(dirpath, f)
+        rel = os.path.relpath(path, root)
+        try:
+            py_compile.compile(path, cfile=os.path.join(root, "tmp.pyc"), doraise=True)
+        except py_compile.PyCompileError as e:
+            who = owner.get(rel, "*runtime:" + rel)
+            res.setdefault(who, "py_compile %s: %s" % (rel, " ".join(str(e.msg).split())[:400]))
 for case, mods in spec.items():
     for m in mods:
         try:
@@ -523,7 +549,7 @@ func c02ReportLangs(out *bufio.Writer, work string, cases []*c02LangCase, descri
 	}
 	for id, e := range pyerrs {
 		if strings.HasPrefix(id, "*") {
-			fmt.Fprintf(out, "-\tpy %s compileall %s\tFAIL py-compile lang=python class=%s trig=runtime %s\n", id, labOneLine(e), c02PyClass(e), id)
+			fmt.Fprintf(out, "-\tpy %s runtime-module %s\tFAIL py-compile lang=python class=%s trig=runtime %s\n", id, labOneLine(e), c02PyClass(e), id)
 		}
 	}
 	return counts, nil
